@@ -433,6 +433,44 @@ def rule_iluk_level(ck, units):
                 ck.ob('fill-level-is-minimum', 'amgcl::relaxation::iluk::sparse_vector::%s' % f.q.split('::')[-1], f.where(w), not det, det)
 
 
+def rule_spai0(ck, units):
+    """spai0-numerator-adjoint: SPAI-0 is the diagonal M minimising ||I - M A||_F; row i gives m_i = a_ii^H / sum_j |a_ij|^2 (the
+    conjugate - for blocks the conjugate transpose - of the diagonal entry).  In the constructors of relaxation::spai0 and
+    mpi::relaxation::spai0 the numerator N of  m[i] = inverse(den) * N  is accumulated only from math::adjoint(entry)."""
+    ck.rule('spai0-numerator-adjoint', 'spai0 (serial and distributed): the numerator of m_i = inverse(sum |a_ij|^2) * N is the adjoint of the diagonal entry (N += math::adjoint(v)): '
+                                       'the row-wise least-squares minimiser of ||I - M A||_F for complex and block values', 1)
+    done = set()
+    for u in units.values():
+        for f in u.funcs:
+            if f.cls not in ('amgcl::relaxation::spai0', 'amgcl::mpi::relaxation::spai0') or not f.j.get('ctor') or f.body is None or f.cls in done:
+                continue
+            f = inline.expand(f, inline.same_class_helper())
+            nums = set()
+            for n in f.nodes.values():
+                if n['k'] in ('bin', 'opcall') and n.get('op') == '=' and n.get('y') is not None:
+                    y = unwrap(n['y'])
+                    if y is not None and y['k'] in ('bin', 'opcall') and y.get('op') == '*':
+                        a, b = unwrap(y['x']), unwrap(y['y'])
+                        for p_, q in ((a, b), (b, a)):
+                            if p_ is not None and p_['k'] == 'call' and (p_.get('f') or '').endswith('math::inverse') and q is not None and q['k'] == 'ref' and f.decl(q['d']).get('k') == 'local':
+                                nums.add(f.canon(q['d']))
+            if not nums:
+                continue
+            done.add(f.cls)
+            bad, n_acc = [], 0
+            for n in f.nodes.values():
+                if n['k'] in ('bin', 'opcall') and n.get('op') in ('+=', '=') and n.get('x') is not None and unwrap(n['x'])['k'] == 'ref' and f.canon(unwrap(n['x'])['d']) in nums:
+                    y = unwrap(n['y'])
+                    if n['op'] == '=' and y is not None and (y['k'] == 'call' and (y.get('f') or '').endswith('math::zero') or y['k'] == 'lit'):
+                        continue
+                    n_acc += 1
+                    if not (y is not None and y['k'] == 'call' and (y.get('f') or '').endswith('math::adjoint')):
+                        bad.append(n)
+            ck.ob('spai0-numerator-adjoint', f.cls, f.where(), not bad and n_acc > 0, '' if (not bad and n_acc) else (
+                '`%s` at %s accumulates the diagonal entry itself: m_i = a_ii / sum |a_ij|^2 is the least-squares minimiser only for real (symmetric block) diagonals; '
+                'the minimiser is adjoint(a_ii) / sum |a_ij|^2' % (show(bad[0])[:50], f.where(bad[0])) if bad else 'no accumulation of the numerator found'))
+
+
 def rule_ilu_order(ck, units):
     ck.rule('ilu-multiplier-order', 'incomplete LU factorisations (ilu0, iluk, ilut): the elimination multiplier is (entry) * (inverted pivot D[c]) - the inverted pivot is the RIGHT factor '
                                     'in every such product of the three sibling constructors (the order matters for block values: (L U)_ic = a_ic needs l_ic = a_ic u_cc^-1)', 3)
@@ -493,6 +531,7 @@ def main(tier):
     rule_chebyshev_bounds(ck, units)
     rule_ilu_order(ck, units)
     rule_iluk_level(ck, {k: v for k, v in units.items() if k == 'rt_builtin'})
+    rule_spai0(ck, units)
     # 'the parallel level-scheduled triangular solve equals the serial one': schedule rules shared with C09
     import c09
     c09.rule_B(ck, {k: v for k, v in units.items() if k == 'rt_builtin'})
